@@ -498,6 +498,11 @@ func TestVerifC10(t *testing.T) {
 		// three swaps: both arrays get reused, with and without spare capacity
 		{b0: []int{1, 2, 3}, spare: 4, acts: []c10Act{{c10ASend, 0}, {c10ARelease, 0}, {c10AQuiesce, 0}, {c10ASend, 0}, {c10AQuiesce, 0}, {c10ASend, 0}, {c10ASend, 0}}, endQuiesce: true},
 		{b0: []int{1, 2, 3}, acts: []c10Act{{c10ASend, 0}, {c10ASend, 0}, {c10AQuiesce, 0}, {c10ASend, 0}, {c10AQuiesce, 0}, {c10ASend, 0}, {c10AQuiesce, 0}, {c10ASend, 0}}, endQuiesce: true},
+		// the same with a start-up batch whose array is large (the first batch of a big cluster), at and around a round capacity
+		{b0: []int{1, 2, 3}, spare: 2000, acts: []c10Act{{c10ASend, 0}, {c10ARelease, 0}, {c10AQuiesce, 0}, {c10ASend, 0}, {c10AQuiesce, 0}, {c10ASend, 0}, {c10ASend, 0}}, endQuiesce: true},
+		{b0: []int{1}, spare: 1499, acts: []c10Act{{c10ARelease, 0}, {c10AQuiesce, 0}, {c10ASend, 0}, {c10ASend, 0}, {c10ASend, 0}, {c10ARelease, 0}, {c10ARelease, 0}, {c10AQuiesce, 0}, {c10ASend, 0}}, endQuiesce: true},
+		{b0: []int{1, 2, 3}, spare: 1021, acts: []c10Act{{c10ASend, 0}, {c10ASend, 0}, {c10AQuiesce, 0}, {c10ASend, 0}, {c10AQuiesce, 0}, {c10ASend, 0}, {c10AQuiesce, 0}, {c10ASend, 0}}, endQuiesce: true},
+		{b0: []int{1, 2, 3}, spare: 1022, acts: []c10Act{{c10ASend, 0}, {c10ASend, 0}, {c10AQuiesce, 0}, {c10ASend, 0}, {c10AQuiesce, 0}, {c10ASend, 0}, {c10AQuiesce, 0}, {c10ASend, 0}}, endQuiesce: true},
 		// an event that arrives exactly when the handler finishes, then nothing else
 		{b0: []int{1}, acts: []c10Act{{c10ARace, 0}}, endQuiesce: true},
 		{b0: []int{1}, acts: []c10Act{{c10ASend, 0}, {c10ARace, 0}, {c10ARace, 0}}, endQuiesce: true},
@@ -552,6 +557,10 @@ func TestVerifC10(t *testing.T) {
 		}
 		if sc.b0 == nil {
 			sc.b0 = []int{}
+		}
+		if r.Chance(1, 8) {
+			// a large array behind the start-up batch
+			sc.spare = []int{1020, 1021, 1022, 2000, 5000, 70000}[r.Intn(6)]
 		}
 		if r.Chance(1, 40) {
 			sc.fail = true
